@@ -534,7 +534,7 @@ def process_list(task):
             allowed.add(name)
         rec["canonical"] = all(from_ir(ir) == e for (_, ir), (_, e) in zip(ir_in, exps))
         names_in = [n for n, _ in ir_in]
-        rets = [n for n in dict.fromkeys(names_in) if n.startswith("_ret")]
+        rets = [n for n in dict.fromkeys(names_in) if C.is_ret_name(n)]
         rec["rets"] = rets
         if not rets:
             return dict(rec, status="no-ret")
@@ -638,7 +638,7 @@ def make_tasks(tier, seed):
     if not thorough:
         it = rng.sample(it, 40)
     srcs += [("int-template", s) for s in it]
-    # a variable whose name starts with _ret is kept by merge_expressions
+    # a variable whose name starts with _ret is an intermediate like any other (fix in merge_expressions)
     srcs.append(("ret-named-variable",
                  "def test(a: bool, b: bool, c: bool, d: bool) -> Tuple[bool, bool]:\n"
                  "    _retx = a and b\n    return ((_retx ^ c) and d, (_retx ^ c) or d)"))
@@ -686,7 +686,7 @@ def case_coq(rec, dis):
         if rec["canonical"] and o["code"] in TRANSFORMER_CODES + (8,):
             fired = f"(Some {C.cbool(o['fired'])})"
         obs.append("mk_obs %d %s %s %s" % (o["code"], fired, C.cnat(max(0, o["nrepl"])), defs_coq_lenient(o["ir_out"], st)))
-    rets = C.clist([C.cnat(i) for s, i in st.idx.items() if s.startswith("_ret")])
+    rets = C.clist([C.cnat(i) for s, i in st.idx.items() if C.is_ret_name(s)])
     return "mk_case %d %s %s %s %s %s" % (rec["idx"], C.cnat(st.n), rets, C.cbool(dis), d_in, C.clist(obs))
 
 
@@ -713,8 +713,8 @@ def mechanism(rec, o):
         repl = out[:max(0, o["nrepl"])]
         rest_names = set(n for n, _ in out[max(0, o["nrepl"]):])
     else:
-        repl = [(n, ir) for n, ir in out if not n.startswith("_ret")]
-        rest_names = set(n for n, _ in out if n.startswith("_ret"))
+        repl = [(n, ir) for n, ir in out if not C.is_ret_name(n)]
+        rest_names = set(n for n, _ in out if C.is_ret_name(n))
     # a replacement reads a symbol that the list itself defines
     for n, ir in repl:
         if ir_syms(ir) & rest_names:
@@ -832,7 +832,7 @@ def run(tier, seed):
             es = C.clist([ir_coq(e, st) for e in c["es"]])
             repl = defs_coq_lenient(c["repl"], st)
             red = C.clist([ir_coq(e, st, allow_new=True) for e in c["red"]])
-            retsyms = C.clist([C.cnat(i) for s, i in st.idx.items() if s.startswith("_ret")])
+            retsyms = C.clist([C.cnat(i) for s, i in st.idx.items() if C.is_ret_name(s)])
             cid = len(cse_rows)
             cse_meta[cid] = dict(list=r["idx"], n_repl=len(c["repl"]))
             cse_rows.append("(%d, (%s, %s, %s, %s, %s))" % (cid, C.cnat(st.n), retsyms, es, repl, red))
